@@ -33,9 +33,17 @@ from . import common
 TW = Fraction(1, 2)
 
 
+class LibraryExit(Exception):
+    """the library called sys.exit() (nsi_arenas_betweenness does on a RuntimeError of the sparse
+    solver): an exception for the check, never the end of the check with exit code 0"""
+
+
 def quiet(fn, *a, **k):
     with contextlib.redirect_stdout(io.StringIO()):
-        return fn(*a, **k)
+        try:
+            return fn(*a, **k)
+        except SystemExit as ex:
+            raise LibraryExit(f"sys.exit({ex.code}) inside {getattr(fn, '__name__', fn)}")
 
 
 def fr(x):
@@ -135,6 +143,11 @@ def impl_values(net, directed, g0, g1, all_reach, heavy=True, variants=True):
         # measures outside the expression language: no theorem, invariance checked by the oracle
         put("nsi_betweenness@oracle", net.nsi_betweenness)
         put("nsi_laplacian@untouched", net.nsi_laplacian)
+        # the bin layout of the n.s.i. degree histograms (number of bins, lower bin bounds) is
+        # an n.s.i. quantity (`nsi_degree_histogram_bins_split`); the frequencies are not
+        put("nsi_degree_histogram_bins@global", lambda: net.nsi_degree_histogram()[2])
+        put("nsi_degree_cumulative_histogram_bins@global",
+            lambda: net.nsi_degree_cumulative_histogram()[1])
         if has_links and heavy:
             put("nsi_spreading@oracle", net.nsi_spreading)
             put("nsi_spreading_alpha@oracle", lambda: net.nsi_spreading(alpha=0.125))
@@ -427,6 +440,14 @@ def run(ctx):
                 meta.append(("betw", gi, None, None, b_bases[-1], n))
                 ctx.count("betweenness-correspondence")
             nsplit = 0
+        # round 4: the linear-algebraic measures in exact rationals (Model/NsiRw.lean)
+        do_rw = (not directed) and all_reach and 3 <= n <= (7 if quick else 8)
+        if do_rw:
+            reqs.append(request("rw", net, Wroot, g0, g1, extra=f"{RW_TERMS} "))
+            meta.append(("rw", gi, None, None, (base_impl, net.node_weights.copy(), scaled,
+                                                 np.array(net.adjacency).tolist()), n))
+            ctx.count("random-walk-correspondence")
+            rw_splits = 0
         for v in nodes:
             for p in props:
                 nontriv = n >= 3 and A.sum() > 0
@@ -468,6 +489,17 @@ def run(ctx):
                 reqs.append(request("evalsplit", net, Wroot, g0, g1,
                                     extra=f"{enc_rat(TW)} {v} {enc_rat(p)} "))
                 meta.append(("evalsplit", gi, v, p, sp_impl, n + 1))
+                if do_rw and rw_splits < (1 if quick else 2):
+                    # the same measures on the implementation's split copy and on the model's
+                    # own split: both exact, so the two answers must be identical strings
+                    rw_splits += 1
+                    reqs.append(request("rw", sp, sWroot, sg0, sg1, extra=f"{RW_TERMS} "))
+                    meta.append(("rw", gi, v, p, (sp_impl, sp.node_weights.copy(), scaled,
+                                                   np.array(sp.adjacency).tolist()), n + 1))
+                    reqs.append(request("rwsplit", net, Wroot, g0, g1,
+                                        extra=f"{RW_TERMS} {v} {enc_rat(p)} "))
+                    meta.append(("rwsplit", gi, v, p, len(reqs) - 2, n + 1))
+                    ctx.count("random-walk-correspondence-on-split")
                 if do_betw:
                     nsplit += 1
                     for ist, (SS, TT) in enumerate(ST):
@@ -579,7 +611,18 @@ def run(ctx):
                              {"adjacency": A.tolist(), "weights": w.tolist()})
     model = common.driver(ctx.pid, reqs)
     bad_split, bad_eval, bad_betw, nvals, nbetw = [], [], [], 0, 0
+    bad_rw, nrw = [], 0
     for ans, (kind, gi, v, p, impl, n) in zip(model, meta):
+        if kind == "rw":
+            nrw += 1
+            bad_rw += check_rw(ctx, ans, impl, n, f"graph#{gi} split={v},{p}")
+            continue
+        if kind == "rwsplit":
+            nrw += 1
+            if ans != model[impl]:
+                bad_rw.append(f"graph#{gi} split={v},{p}: the model's own split and the model on "
+                              f"splitted_copy() disagree: {ans[:120]} / {model[impl][:120]}")
+            continue
         if kind == "split":
             if ans != impl:
                 bad_split.append(f"graph#{gi} v={v} p={p}: model={ans[:160]} impl={impl[:160]}")
@@ -628,8 +671,109 @@ def run(ctx):
                    f"nsi_interregional_betweenness / nsi_cross_betweenness, on graphs, split "
                    f"copies, the model's split and double split; igraph distances == model BFS "
                    f"({nbetw} requests)", "correspondence", not bad_betw, "\n".join(bad_betw[:6]))
+    ctx.obligation(f"correspondence: nsi_newman_betweenness (both add_local_ends), "
+                   f"nsi_arenas_betweenness (4 argument patterns), nsi_laplacian, nsi_spreading "
+                   f"(series of exact moments, default and given alpha), histogram bin layout -- "
+                   f"exact-rational model with Gauss-Jordan inverse == implementation, on graphs, "
+                   f"split copies and the model's own split; hypotheses SolvesL/SolvesR/"
+                   f"ArenasSolves of the theorems hold exactly for the computed inverses "
+                   f"({nrw} requests)", "correspondence", not bad_rw, "\n".join(bad_rw[:6]))
     ctx.extra["values_compared"] = nvals
     extras(ctx)
+
+
+RW_TERMS = 60      # terms of the exponential series of nsi_spreading sent by the model
+
+
+def check_rw(ctx, ans, impl_pack, n, where):
+    """one `rw` answer of the driver against the implementation's values on the same graph"""
+    import math
+    impl, w, scaled, adjacency = impl_pack
+    mb = parse_betw(ans)
+    bad = []
+
+    def rats(key):
+        v = mb.get(key, "-")
+        return None if v == "singular" else ([] if v == "-" else [Fraction(x) for x in v.split(",")])
+    if mb.get("solves") != "1":
+        bad.append(f"{where}: the grounded inverse of sp_M does not satisfy SolvesL / SolvesR")
+    if mb.get("arenas_ok") != "1":
+        bad.append(f"{where}: a computed V_i does not solve (1 - P_i) V = P_i exactly")
+    pairs = [("newman", "nsi_newman_betweenness@oracle"),
+             ("newman_ends", "nsi_newman_betweenness_ends@oracle"),
+             ("arenas", "nsi_arenas_betweenness@oracle"),
+             ("arenas_incl", "nsi_arenas_betweenness_incl@oracle"),
+             ("arenas_twin", "nsi_arenas_betweenness_twin@oracle"),
+             ("arenas_incl_twin", "nsi_arenas_betweenness_incl_twin@oracle")]
+    for key, name in pairs:
+        iv = impl.get(name)
+        if iv is None:
+            continue
+        mv = rats(key)
+        if isinstance(iv, tuple):
+            if mv is not None:      # the model has a value, the implementation raises
+                bad.append(f"{where} {name}: implementation raises {iv[1]}, model={mb.get(key)[:80]}")
+                ctx.fail({"kind": "raises", "measure": name.split("@")[0]},
+                         f"{name} raises {iv[1]} on a connected network on which the exact "
+                         f"linear algebra has a solution ({where})",
+                         {"measure": name, "adjacency": adjacency,
+                          "node_weights": [float(x) for x in w], "where": where})
+            continue
+        if mv is None or len(mv) != len(iv):
+            bad.append(f"{where} {name}: model={mb.get(key, '?')[:80]} impl={iv}")
+            continue
+        fl = vec_floor(iv, [float(x) for x in mv], scaled, name)
+        if not all(close(a, float(b), 1e-8, fl) for a, b in zip(iv, mv)):
+            bad.append(f"{where} {name}: impl={iv} model={[float(x) for x in mv]}")
+        ctx.count("rw-values-compared", len(iv))
+    # nsi_laplacian: exact entries
+    iv = impl.get("nsi_laplacian@untouched")
+    mv = rats("lap")
+    if iv is not None and not isinstance(iv, tuple):
+        fl = max([1.0] + [abs(x) for x in iv])
+        if mv is None or len(mv) != len(iv) or not all(
+                close(a, float(b), 1e-12, fl) for a, b in zip(iv, mv)):
+            bad.append(f"{where} nsi_laplacian: impl={iv[:8]} model={mb.get('lap', '')[:80]}")
+    # histogram bin layout
+    iv = impl.get("nsi_degree_histogram_bins@global")
+    mv = rats("lbb")
+    if iv is not None and not isinstance(iv, tuple):
+        fl = max([1.0] + [abs(x) for x in iv])
+        if mv is None or str(len(iv)) != mb.get("nbins") or len(mv) != len(iv) or not all(
+                close(a, float(b), 1e-12, fl) for a, b in zip(iv, mv)):
+            bad.append(f"{where} nsi_degree_histogram bins: impl={iv} model nbins="
+                       f"{mb.get('nbins')} lbb={mb.get('lbb', '')[:80]}")
+    # nsi_spreading = 1/2 sum_k (alpha ln 2)^k / k! m_k, all terms positive
+    rows = [[Fraction(x) for x in r.split(",")] for r in mb.get("moments", "-").split(";")
+            if r and r != "-"]
+    alpha0 = rats("alpha")
+    for name, alpha in (("nsi_spreading@oracle", alpha0[0] if alpha0 else None),
+                        ("nsi_spreading_alpha@oracle", Fraction(1, 8))):
+        iv = impl.get(name)
+        if iv is None or isinstance(iv, tuple) or alpha is None or not rows:
+            continue
+        if not all(x == x and abs(x) != float("inf") for x in iv):
+            continue
+        ln2 = math.log(2.0)
+        vals, conv = [], True
+        for i in range(n):
+            tot, last = 0.0, 0.0
+            for k, row in enumerate(rows):
+                try:
+                    last = float(row[i] * alpha ** k) * (ln2 ** k / math.factorial(k))
+                except OverflowError:
+                    last = float("inf")
+                tot += last
+            conv = conv and last <= 1e-13 * tot
+            vals.append(0.5 * tot)
+        if not conv:
+            ctx.count("spreading-series-not-converged-in-%d-terms" % len(rows))
+            continue
+        if len(vals) != len(iv) or not all(close(a, b, 1e-9, max(abs(x) for x in iv))
+                                           for a, b in zip(iv, vals)):
+            bad.append(f"{where} {name}: impl={iv} series={vals}")
+        ctx.count("spreading-series-compared")
+    return bad
 
 
 def vec_floor(b, s, vec_rel, name=""):
@@ -671,7 +815,9 @@ def oracle(ctx, base, spl, n, v, p, A, directed, w, Wroot, g0, extra_replay=None
         ok = True
         tol = 1e-6 if "@oracle" in name else 1e-9      # iterative solvers
         fl = vec_floor(b, s, vec_rel, name)
-        if len(b) == 1:
+        if "@global" in name:       # a vector that is one global value (bin layout)
+            ok = len(b) == len(s) and all(close(x, y, 1e-12, fl) for x, y in zip(b, s))
+        elif len(b) == 1:
             ok = close(b[0], s[0], tol) or (b[0] != b[0] and s[0] != s[0])
         elif len(b) == n:
             for i in range(n):
@@ -709,7 +855,10 @@ def oracle_map(ctx, base, spl, n, orig, A, directed, w, extra, vec_rel=False):
         fl = vec_floor(b, s, vec_rel, name) if len(b) > 1 else 1.0
         eq = lambda x, y: close(x, y, tol, fl) or (x != x and y != y)   # noqa
         ok = True
-        if len(b) == 1:
+        if "@global" in name:
+            ok = len(b) == len(s) and all(close(x, y, 1e-12, max(fl, vec_floor(b, s, vec_rel)))
+                                          for x, y in zip(b, s))
+        elif len(b) == 1:
             ok = eq(b[0], s[0])
         elif len(b) == n:
             ok = all(eq(b[orig[k]], s[k]) for k in range(m))
